@@ -62,7 +62,9 @@ class SymChunk(SymVal):
             v = z3.Int(f"{self.uid}.{order}")
             n = self.length
             if is_sym(n):
-                # value bounded by 256^len: only lengths 0..8 occur for integers
+                # value bounded by 256^len, tabulated for lengths 0..8; a longer chunk is outside the model
+                if ctx.branch(n > 8):
+                    raise Undecided("integer value of a stream chunk that may be longer than 8 bytes")
                 bound = z3.IntVal(1)
                 for k in range(1, 9):
                     bound = z3.If(n >= k, 256 ** k, bound)
@@ -77,7 +79,18 @@ class SymChunk(SymVal):
         return self._le[1]
 
     def sym_eq(self, other):
-        return other is self
+        if other is self:
+            return True
+        o = simplify_native(other)
+        if isinstance(o, SymChunk) and self.stream is not None and o.stream is self.stream:
+            # two chunks of the same stream: equal ranges are equal bytes; different ranges may or may not be
+            same = land(eq(self.start, o.start), eq(self.length, o.length))
+            if same is True:
+                return True
+        if isinstance(o, (bytes, bytearray)) or type(o).__name__ in ("Rope", "OBytes", "SymChunk", "ZSeq"):
+            # unknown content against other bytes: lengths decide only inequality
+            raise Undecided("equality of stream bytes with other bytes")
+        return False                    # bytes never equal a value of another type
 
     def __repr__(self):
         return f"SymChunk({self.origin}, len={self.length})"
